@@ -143,6 +143,19 @@ def run(ctx):
                     ctx.fail('C14:await-exceeded-its-timeout', {'meta': t['meta']}, detail={'call': tc, 'ret': e},
                              signature=facts(t, i))
                 tc = None
+    # the text handed to matching on the awaited / mixed path is the decoding of the byte stream (what the blocking
+    # path delivers): every read / late event, concatenated, is a prefix of the decoded stream
+    for t in uniq:
+        m = t['meta']
+        mapping = P.UNI if m['mode'] == 'unicode' else P.ASCII
+        want = list(m['stream'])
+        got = []
+        for e in t['ev']:
+            if e['e'] in ('read', 'late'):
+                got += e['d']
+        if got != want[:len(got)]:
+            ctx.fail('C14:text-delivered-on-the-awaited-path-is-not-the-decoded-stream', {'meta': m},
+                     detail={'delivered': got, 'stream': want}, signature={'mode': m['mode']})
     for t in uniq:
         v, at = verdicts[t['id']]
         if v != 'ok':
